@@ -12,15 +12,17 @@ ConfsQuick ==
 ConfsThorough ==
     { C(l0, n0, lmax, vals, FALSE, 0) :
         l0 \in 0..2, n0 \in 1..2, lmax \in 2..3, vals \in {{0, 1, 3}, {0, 2, 4}, {1, 2, 5}} }
-    \cup { C(l0, n0, lmax, {0}, TRUE, 0) : l0 \in 0..2, n0 \in 1..3, lmax \in 0..3 }
+    \cup { c \in { C(l0, n0, lmax, {0}, TRUE, 0) : l0 \in 0..2, n0 \in 1..3, lmax \in 0..3 } : c.L0 <= c.LMax }
 
 ConfsLive == { C(0, 1, 2, {0, 1, 3}, FALSE, 0), C(1, 2, 2, {0, 2, 3}, FALSE, 0), C(1, 2, 3, {0, 2}, TRUE, 0) }
 
 \* the code as pinned (new level counter 1): RowsExact must be violated (regression demonstration)
 ConfsPinned == { C(1, 2, 3, {0, 2, 3}, FALSE, 1) }
 
-\* script generation by simulation
+\* script generation by simulation (initial level <= maximum level: above it the loop never meets L = LMax and the number
+\* of levels, hence the set of allocation vectors TLC has to enumerate for one step, grows without bound)
 ConfsSim ==
-    { C(l0, n0, lmax, vals, fx, 0) :
-        l0 \in 0..2, n0 \in 1..3, lmax \in 0..4, vals \in {{0, 1, 3, 6}, {0, 2, 4, 5}, {1, 2, 3, 100, 101}}, fx \in BOOLEAN }
+    { c \in { C(l0, n0, lmax, vals, fx, 0) :
+                l0 \in 0..2, n0 \in 1..3, lmax \in 0..4, vals \in {{0, 1, 3, 6}, {0, 2, 4, 5}, {1, 2, 3, 100, 101}}, fx \in BOOLEAN }
+        : c.L0 <= c.LMax }
 =============================================================================
